@@ -269,9 +269,46 @@ func (x *Exec) placeLemmas() {
 		}
 	}
 	sort.Ints(lines)
+	// call instructions in source order, for anchors of the form
+	// "call <name>": the k-th call of a function or method called <name>
+	// (robust against renamed variables, unlike a source line)
+	var calls []*ssa.Call
+	for _, b := range x.fn.Blocks {
+		for _, in := range b.Instrs {
+			if c, ok := in.(*ssa.Call); ok && c.Pos().IsValid() {
+				calls = append(calls, c)
+			}
+		}
+	}
+	sort.Slice(calls, func(i, j int) bool { return calls[i].Pos() < calls[j].Pos() })
+	calleeName := func(c *ssa.Call) string {
+		if c.Call.IsInvoke() {
+			return c.Call.Method.Name()
+		}
+		if f := c.Call.StaticCallee(); f != nil {
+			return f.Name()
+		}
+		return ""
+	}
 	for _, lm := range x.fc.Lemmas {
 		n := 0
 		placed := false
+		if name, ok := strings.CutPrefix(lm.Text, "call "); ok {
+			for _, c := range calls {
+				if calleeName(c) == strings.TrimSpace(name) {
+					n++
+					if n == lm.K {
+						x.lemmaAt[c] = append(x.lemmaAt[c], lm)
+						placed = true
+						break
+					}
+				}
+			}
+			if !placed {
+				panic(contractError{fmt.Sprintf("%s: no call of %q (occurrence %d) in %s", lm.Cl.Line, name, lm.K, x.key)})
+			}
+			continue
+		}
 		for _, l := range lines {
 			_, txt := x.v.srcLine(x.p, first[l].Pos())
 			match := txt == lm.Text
